@@ -56,7 +56,59 @@ def cases(tier, rng):
         for k in range(len(s)):
             if s[:k] not in seen:
                 seen.add(s[:k]); out.append((mk(s[:k]), "seq%d" % min(k, 4)))
+    out += resolve_cases(tier, rng)
     return out
+
+# ---- the resolution helpers of substitution_set.rs (is_bound, get_binding, is_ground_variable, get_ground_term,
+#      get_complex, get_list, get_constant) on ACYCLIC substitution sets: slot i is bound to a term whose variables
+#      all have ids above i, so every chain ends ----
+RFUNS = ["is-bound", "get-binding", "is-ground-variable", "get-ground-term", "get-complex", "get-list", "get-constant"]
+def _rvar(i): return var(i, "$V%d" % i)
+def _rterm(rng, lo, depth=0):
+    """a term whose variables have ids in lo..7 (7 lies beyond every set generated here)"""
+    k = rng.random()
+    vs = list(range(lo, 8))
+    if k < 0.35 and vs: return _rvar(rng.choice(vs))
+    if k < 0.55 or depth >= 2: return rng.choice([atom("a"), atom("b"), integer(1), flt(2.5), ANON])
+    if k < 0.75: return cplx("f", *[_rterm(rng, lo, depth + 1) for _ in range(rng.randint(1, 2))])
+    if k < 0.9: return lst([_rterm(rng, lo, depth + 1) for _ in range(rng.randint(0, 2))])
+    return lst([_rterm(rng, lo, depth + 1)], _rvar(rng.choice(vs)) if vs else ANON)
+def resolve_cases(tier, rng):
+    out = []
+    n = 400 if tier == "quick" else 6000
+    sets = [[], [None], [None, atom("a")], [None, _rvar(2), _rvar(3), atom("a")], [None, _rvar(2), _rvar(3), None],
+            [None, _rvar(3), cplx("f", _rvar(3)), lst([atom("a")], _rvar(4)), None], [None, _rvar(7), None]]
+    for _ in range(n):
+        ln = rng.randint(1, 6)
+        sets.append([None if (i == 0 or rng.random() < 0.3) else _rterm(rng, i + 1) for i in range(ln)])
+    probes = [_rvar(i) for i in range(0, 8)] + [atom("a"), integer(1), flt(2.5), ANON, cplx("f", _rvar(1)), lst([_rvar(1)]), EMPTY, NIL]
+    for st in sets:
+        for f in RFUNS:
+            for t in (probes if len(out) < 3000 or tier != "quick" else rng.sample(probes, 5)):
+                out.append(("(resolve %s %s %s)" % (f, t, ss(st)), "resolve"))
+    return out
+
+def _rfollow(t, st, steps=0):
+    """python reference: follow bindings from t; -> the term where the chain ends, or None at an unbound variable"""
+    while obs.is_var(t):
+        i = int(t[1])
+        if i >= len(st) or st[i] == "-": return None
+        t = st[i]
+        steps += 1
+        if steps > 100: raise RuntimeError("cycle in a generated set")
+    return t
+def _rexpect(f, t, st):
+    isv = obs.is_var(t)
+    if f in ("is-bound", "get-binding", "is-ground-variable") and not isv: return "panic"
+    def some(x): return ["ok", "none"] if x is None else ["ok", ["some", x]]
+    if f == "is-bound": i = int(t[1]); return ["ok", "1" if i < len(st) and st[i] != "-" else "0"]
+    if f == "get-binding": i = int(t[1]); return some(st[i] if i < len(st) and st[i] != "-" else None)
+    g = _rfollow(t, st)
+    if f == "is-ground-variable": return ["ok", "1" if g is not None else "0"]
+    if f == "get-ground-term": return some(g)
+    kind = {"get-complex": "c", "get-list": "l", "get-constant": "aif"}[f]
+    if not isv: return some(t if isinstance(t, list) and t[0] in kind else None)
+    return some(g if g is not None and isinstance(g, list) and g[0] in kind else None)
 
 RULE = ("all sequences of length <= 2 (quick: plus 6000 random of length 3 and 3000 of length 4-6 biased to "
         "variable-variable steps; thorough: all 46656 of length 3 plus 150000 longer) of unifications among $X,$Y,$Z, a, b, 1 "
@@ -65,18 +117,35 @@ RULE = ("all sequences of length <= 2 (quick: plus 6000 random of length 3 and 3
         "each followed by resolving q($X,$Y,$Z). "
         "Relations checked on the implementation's own results: no result diverges or panics; no cycle in the "
         "returned bindings; a last step between two already-aliased variables returns the previous set unchanged. "
-        "Non-trivial = at least two variable-variable steps succeeded.")
+        "Also the seven resolution helpers of substitution_set.rs (is_bound, get_binding, is_ground_variable, get_ground_term, get_complex, "
+        "get_list, get_constant) on generated ACYCLIC substitution sets (slot i bound to a term over variables above i) and probe terms "
+        "(variables inside, at the end of and beyond the set, constants, compound terms): model-vs-implementation plus a python walker as oracle. "
+        "Non-trivial = at least two variable-variable steps succeeded / the helper found a binding.")
 
 def nontrivial(case, tag, result):
+    if tag == "resolve": return "(ok (some" in result or "(ok 1)" in result
+    if not case.startswith("(useqr "): return False
     c = parse(case)
     vv = sum(1 for p in c[3:] if obs.is_var(p[0]) and obs.is_var(p[1]) and p[0] != p[1])
     return vv >= 2 and "some" in result
 
+REL_STATS = {}
 def relations(cases, impl):
     by_case = {}
     for (case, tag), (out, res) in zip(cases, impl):
         by_case[case] = res
+    REL_STATS.clear(); REL_STATS.update(resolve_oracle_checks=0)
     for (case, tag), (out, res) in zip(cases, impl):
+        if tag == "resolve":
+            c = parse(case)
+            exp = _rexpect(c[1], c[2], c[3][1:])
+            REL_STATS["resolve_oracle_checks"] += 1
+            got = res if res in ("panic", "diverged") else parse(res)
+            if got != exp:
+                yield dict(case=case, tag=tag, why="%s: the result differs from following the chain of bindings by hand" % c[1],
+                           implementation=dict(result=res), expected=obs.to_text(exp) if isinstance(exp, list) else exp)
+            continue
+        if not case.startswith("(useqr "): continue
         r = obs.parse_result(res)
         if r[0] in ("panic", "diverged"):
             yield dict(case=case, tag=tag, why="a sequence that needs no occurs check ended in %s (resolving a cyclic binding never terminates)" % r[0],
